@@ -49,6 +49,11 @@ def _worker(i):
                                        max_paths=t.max_paths, label=t.name)
         out["task"] = t.name
         out["error"] = None
+        from . import lower
+        out["crosscheck"] = {k: (len(v) if isinstance(v, list) else v) for k, v in lower.CROSS.items() if k != "n"}
+        for k in ("sampled", "unsat", "unknown", "sat", "errors"):
+            lower.CROSS[k] = 0
+        del lower.CROSS["disagreements"][:]
     except BaseException as e:   # noqa  (a crashed harness is an encoding error, never a pass)
         out = dict(task=t.name, records=[], paths=0, solver_time=0.0,
                    error="%s: %s\n%s" % (type(e).__name__, e, traceback.format_exc()[-1500:]))
@@ -133,6 +138,8 @@ def run_property(prop, tier, seed=0, only=None, jobs=None):
     pid = prop.PROP_ID
     os.makedirs(REPLAYS, exist_ok=True)
     _TIMEOUT = 20000 if tier == "quick" else 120000
+    from . import lower
+    lower.CROSS["every"] = 0 if tier == "quick" else int(os.environ.get("VERIF_CROSSCHECK_EVERY", "20"))
     tasks = prop.tasks(tier)
     if only:
         tasks = [t for t in tasks if re.search(only, t.name)]
@@ -252,7 +259,8 @@ def run_property(prop, tier, seed=0, only=None, jobs=None):
             reachability_witnesses=dict(total=len(reach), sat=len(reach) - len(vacuous) - len(reach_unknown), unknown=len(reach_unknown)),
             tasks=len(tasks), task_errors=len(errors),
             solver_time_s=round(sum(o.get("solver_time", 0.0) for o in results), 2),
-            solvers=meta.get("solvers", ["z3 %s" % _z3ver()]),
+            solvers=meta.get("solvers", ["z3 %s" % _z3ver()]) + (["cvc5 binary (sampled cross-check of z3 unsat answers)"] if tier != "quick" else []),
+            second_solver_crosscheck=_cross_summary(results, tier),
             functions_encoded=meta.get("functions", []),
             sources_sha256={os.path.relpath(p, "/repo"): h for p, h in sorted(_collect_sources(results).items())},
             bounds=meta.get("bounds", {}), stubs=meta.get("stubs", []),
@@ -277,12 +285,27 @@ def run_property(prop, tier, seed=0, only=None, jobs=None):
              ev["coverage"]["paths_explored"], len(tasks), wall))
     if violations:
         return EXIT_VIOLATION
+    if tier != "quick" and (_cross_summary(results, tier).get("disagreements") or 0) > 0:
+        print("SOLVER-DISAGREEMENT: cvc5 answered sat on a query z3 answered unsat (see evidence); treated as an encoding error")
+        return EXIT_ENCODING
     if errors or vacuous:
         return EXIT_ENCODING
     if not obligations:
         print("no obligations were produced")
         return EXIT_ENCODING
     return EXIT_OK
+
+
+def _cross_summary(results, tier):
+    if tier == "quick":
+        return "not run in the quick tier"
+    tot = {}
+    for o in results:
+        for k, v in (o.get("crosscheck") or {}).items():
+            if k != "every":
+                tot[k] = tot.get(k, 0) + (v or 0)
+    tot["rule"] = "every 20th query answered unsat by z3 is re-asked to cvc5 1.0 via SMT-LIB with an 8 s limit; 'sat' would be a disagreement"
+    return tot
 
 
 def _collect_sources(results):
